@@ -119,6 +119,11 @@ func (w *LiveWorld) EntLine(e *LEnt, v int) string {
 		}
 		return fmt.Sprintf("var %s = []string{%s}%s", e.name(), strings.Join(lits, ", "), trailer)
 	}
+	if e.Kind == "zvar" && e.Tmpl >= 4 {
+		// initialised to nil in every version; bump() stores a host object in it: a reload must
+		// bring it back to a nil that the script sees as nil
+		return fmt.Sprintf("var %s any = nil%s", e.name(), trailer)
+	}
 	if e.Kind == "zvar" {
 		// initialised to zero in every version: a reload must bring it back to 0
 		if e.Tmpl%2 == 1 {
@@ -157,6 +162,10 @@ func (w *LiveWorld) EntLine(e *LEnt, v int) string {
 		// versions that differ in nothing but the field read (same opcodes, same first operands)
 		return fmt.Sprintf("func (t *T%d) %s() int { return t.W%d + %d }%s", e.Recv, e.name(), v, e.ID, trailer)
 	}
+	if e.Kind == "method" && e.Tmpl == 3 {
+		// a method with exactly one parameter besides the receiver
+		return fmt.Sprintf("func (t *T%d) %s(x int) int { return %d + x - x }%s", e.Recv, e.name(), t, trailer)
+	}
 	if e.Kind == "method" {
 		if (e.Tmpl+v)%2 == 0 || v == 9 {
 			body = fmt.Sprintf("return %d + t.A - t.A", t)
@@ -167,6 +176,14 @@ func (w *LiveWorld) EntLine(e *LEnt, v int) string {
 		return fmt.Sprintf("func %s(xs ...int) int { %s }%s", e.name(), body, trailer)
 	}
 	return fmt.Sprintf("func %s() int { %s }%s", e.name(), body, trailer)
+}
+
+// marg is the argument list of a call of method entity e.
+func marg(e *LEnt) string {
+	if e.Kind == "method" && e.Tmpl == 3 {
+		return "4"
+	}
+	return ""
 }
 
 // ftype is the Go type of a captured function value of entity id.
@@ -245,6 +262,7 @@ func (w *LiveWorld) Infra(pkg int) string {
 		ln("type T%d struct { A int; B string; W0 int; W1 int; W2 int; W3 int; W4 int; W5 int; W6 int; W7 int; W8 int; W9 int }", t)
 		ln("var P%d *T%d", t, t)
 	}
+	ln("func nz(x any) int { if x == nil { return 0 }; return 1 }")
 	ln("type Holder struct { F func() int }")
 	ln("type HolderV struct { F func(...int) int }")
 	ln("var S int")
@@ -256,7 +274,11 @@ func (w *LiveWorld) Infra(pkg int) string {
 		ln("var FV%d %s", id, w.ftype(id))
 	}
 	for _, id := range w.BM {
-		ln("var BM%d func() int", id)
+		if marg(w.ent(id)) != "" {
+			ln("var BM%d func(int) int", id)
+		} else {
+			ln("var BM%d func() int", id)
+		}
 	}
 	for i := range w.Ents {
 		if e := &w.Ents[i]; e.Kind == "proc" {
@@ -295,7 +317,9 @@ func (w *LiveWorld) Infra(pkg int) string {
 	ln("\tS = S + 1")
 	ln("\tSA = S")
 	for i := range w.Ents {
-		if e := &w.Ents[i]; e.Kind == "zvar" {
+		if e := &w.Ents[i]; e.Kind == "zvar" && e.Tmpl >= 4 {
+			ln("\t%s = host.Mk()", w.ref(e, 0))
+		} else if e.Kind == "zvar" {
 			ln("\t%s = %s + 1", w.ref(e, 0), w.ref(e, 0))
 		}
 	}
@@ -310,7 +334,11 @@ func (w *LiveWorld) Infra(pkg int) string {
 		case "ivar":
 			ln("\thost.Obs(\"iv\", %d, %s)", e.ID, w.ref(e, 0))
 		case "zvar":
-			ln("\thost.Obs(\"zv\", %d, %s)", e.ID, w.ref(e, 0))
+			if e.Tmpl >= 4 {
+				ln("\thost.Obs(\"zv\", %d, nz(%s))", e.ID, w.ref(e, 0))
+			} else {
+				ln("\thost.Obs(\"zv\", %d, %s)", e.ID, w.ref(e, 0))
+			}
 		case "bulk":
 			ln("\thost.Obs(\"bk\", %d, len(%s))", e.ID, w.ref(e, 0))
 		case "proc":
@@ -327,14 +355,14 @@ func (w *LiveWorld) Infra(pkg int) string {
 			ln("\t\thost.Obs(\"pf\", %d, %s)", e.ID, pv)
 			ln("\t}")
 		case "method":
-			ln("\tif P%d != nil { host.Obs(\"im\", %d, P%d.%s()) }", e.Recv, e.ID, e.Recv, e.name())
+			ln("\tif P%d != nil { host.Obs(\"im\", %d, P%d.%s(%s)) }", e.Recv, e.ID, e.Recv, e.name(), marg(e))
 		}
 	}
 	for _, id := range w.FV {
 		ln("\tif FV%d != nil { host.Obs(\"fv\", %d, FV%d(%s)) }", id, id, id, map[bool]string{false: "", true: "5"}[w.ent(id).Variadic && id%2 == 1])
 	}
 	for _, id := range w.BM {
-		ln("\tif BM%d != nil { host.Obs(\"bm\", %d, BM%d()) }", id, id, id)
+		ln("\tif BM%d != nil { host.Obs(\"bm\", %d, BM%d(%s)) }", id, id, id, marg(w.ent(id)))
 	}
 	for _, id := range w.SF {
 		ln("\tif H%d != nil { host.Obs(\"sf\", %d, H%d.F()) }", id, id, id)
@@ -376,7 +404,11 @@ func (w *LiveWorld) Infra(pkg int) string {
 		case "ivar":
 			ln("\t\thost.Obs(\"iv\", %d, %s)", e.ID, e.name())
 		case "zvar":
-			ln("\t\thost.Obs(\"zv\", %d, %s)", e.ID, e.name())
+			if e.Tmpl >= 4 {
+				ln("\t\thost.Obs(\"zv\", %d, nz(%s))", e.ID, e.name())
+			} else {
+				ln("\t\thost.Obs(\"zv\", %d, %s)", e.ID, e.name())
+			}
 		}
 	}
 	ln("\t}")
@@ -484,7 +516,7 @@ func GenLiveWorld(r *core.PRNG) *LiveWorld {
 	}
 	if r.Bool() {
 		id++
-		w.Ents = append(w.Ents, LEnt{ID: id, Kind: "zvar", Pkg: 0, File: r.Intn(w.Pkgs[0].NFiles), Tmpl: r.Intn(4)})
+		w.Ents = append(w.Ents, LEnt{ID: id, Kind: "zvar", Pkg: 0, File: r.Intn(w.Pkgs[0].NFiles), Tmpl: r.Intn(6)})
 	}
 	for t := 1; t <= w.Types; t++ {
 		nm := 1 + r.Intn(3)
